@@ -207,6 +207,24 @@ Definition model_ccp (n : net) (s t : Z) (nodes_list : list Z) (strict_list : li
     | None => Ok (CSearch (model_route (ngraph n) s t inc (existsb (fun b => b) (removelast strict_list))))
     end.
 
+(* PROPOSED REPAIR of F11 / F11b -- not the code that is in /repo today: explicit_path only answers when the path it
+   spells is a route of the request (walk, loop-free, right ends, whole include list crossed in order); otherwise the
+   ordinary search decides.  After the fix commit, Run/C11.v switches from model_ccp to model_ccp_checked. *)
+Definition explicit_path_checked (n : net) (inc : list Z) (s t : Z) : option (list Z) :=
+  match explicit_path n inc s t with
+  | Some p => if route_ok (ngraph n) s t inc p then Some p else None
+  | None => None
+  end.
+
+Definition model_ccp_checked (n : net) (s t : Z) (nodes_list : list Z) (strict_list : list bool) : res ccp :=
+  if negb (last nodes_list (t + 1) =? t) then Err "ValueError:last node should be destination"
+  else
+    let inc := removelast nodes_list in
+    match explicit_path_checked n inc s t with
+    | Some p => Ok (CExplicit p)
+    | None => Ok (CSearch (model_route (ngraph n) s t inc (existsb (fun b => b) (removelast strict_list))))
+    end.
+
 (* ------------------------------------------------------------------ correct_json_route_list (request.py:1060-1105), one request.
    names are node ids; a name that is not in the topology is any id without a kind (e.g. negative). *)
 Fixpoint remove_at {A} (k : nat) (l : list A) : list A :=
